@@ -17,7 +17,9 @@ KRS = [dict(exps=(1.0, 1.0, 1.0), res=(0.0, 0.1, 0.0), ends=(1.0, 1.0, 1.0)),
        # mobile water (Sw above its residual): the water term of the mobility is non-zero
        dict(exps=(2.0, 1.5, 2.0), res=(0.1, 0.1, 0.05), ends=(0.9, 0.7, 1.0), sw=0.3),
        # a span where NO phase flows (gas end-point 0, oil immobile below So = 0.6): the integral is flat there
-       dict(exps=(2.0, 2.0, 2.0), res=(0.6, 0.1, 0.0), ends=(1.0, 1.0, 0.0))]
+       dict(exps=(2.0, 2.0, 2.0), res=(0.6, 0.1, 0.0), ends=(1.0, 1.0, 0.0)),
+       # exponent 6 just above residual oil, no gas flow: total mobility of 1e-12 .. 1e-9 over a run of rows - tiny, positive
+       dict(exps=(6.0, 2.0, 2.0), res=(0.6, 0.1, 0.0), ends=(1.0, 1.0, 0.0))]
 RHOS = [{"rho_o0": 141.5 / (45 + 131.5), "rho_g0": 1.03e-3, "rho_w0": 1.0},
         {"rho_o0": 52.0, "rho_g0": 0.06, "rho_w0": 63.0}]
 
@@ -102,8 +104,14 @@ def evaluate(case):
     key = None
     if lam.min() > 0:
         tbf = dict(tb)
+        snap_in = {k: np.array(v, copy=True) for k, v in tb.items()}
         i_node = int(0.8 * len(p))
-        for p_i, on_node in ((float(p[i_node]), True), (float(0.5 * (p[i_node] + p[i_node + 1])), False)):
+        n_ = len(p)
+        # initial pressure at / between nodes in the body of the table, in the FIRST cell (the pseudopressure is 0 at
+        # the first row), at the second node, in the last cell and at the last node
+        spots = [(i_node, True), (i_node, False), (0, False), (1, True), (n_ - 2, False), (n_ - 1, True)]
+        for i_node, on_node in spots:
+            p_i = float(p[i_node]) if on_node else float(0.5 * (p[i_node] + p[i_node + 1]))
             with warnings.catch_warnings(), np.errstate(all="ignore"):
                 warnings.simplefilter("ignore")
                 try:
@@ -141,13 +149,22 @@ def evaluate(case):
                 break
             if on_node and not abs(m_i - 1) <= 1e-12:
                 viol.append(V("from_table/m_i", f"m_i = {m_i!r} at a table node, expected 1", case=case))
-            a_, b_ = want[i_node], want[i_node + 1]
-            bound = (b_ - a_) ** 2 / (4 * a_ * b_)  # (la + (1-l)b)(l/a + (1-l)/b) <= 1 + (b-a)^2/(4ab)
-            if not on_node and not 1 - 1e-12 <= m_i <= 1 + bound * (1 + 1e-9) + 1e-12:
-                viol.append(V("from_table/m_i", f"m_i = {m_i!r} between nodes, expected within [1, 1 + {bound:.3g}]", case=case))
+            if not on_node:
+                a_, b_ = want[i_node], want[i_node + 1]
+                with np.errstate(all="ignore"):  # (la + (1-l)b)(l/a + (1-l)/b) <= 1 + (b-a)^2/(4ab); a = 0 in the first cell
+                    bound = (b_ - a_) ** 2 / (4 * a_ * b_) if a_ > 0 else np.inf
+                if not 1 - 1e-12 <= m_i <= 1 + bound * (1 + 1e-9) + 1e-12:
+                    viol.append(V("from_table/m_i", f"m_i = {m_i!r} for p_i={p_i:.6g} between nodes {i_node} and {i_node + 1}, "
+                                  f"expected within [1, 1 + {bound:.3g}]", case=case))
+            if any(not np.array_equal(tbf[k], snap_in[k]) for k in snap_in) or set(tbf) != set(snap_in):
+                viol.append(V("from_table/caller-table-modified", "from_table modified the caller's table", case=case))
+                break
             for frac in (0.0, 0.3, 0.999):
-                p_f = p[1] + frac * (p_i - p[1])
+                p_f = p[0] + frac * (p_i - p[0])
                 v = float(fl.m_scaled_func(p_f))
+                if frac == 0.0 and v != 0.0:
+                    viol.append(V("from_table/zero-at-first-pressure", f"m_scaled_func(first table pressure) = {v!r}", case=case))
+                    break
                 if not 0 <= v < 1:
                     viol.append(V("from_table/fracface-in-unit-interval", f"m_scaled_func(p_f={p_f:.6g}) = {v!r} for "
                                   f"p_i={p_i:.6g}: not in [0, 1)", case=case, observed=v))
@@ -169,6 +186,9 @@ def cases(tier, seed):
             out.append({"family": fam, "grid": g, "kr": k, "rho": r, "factor": f, "seed": seed, "kr_desc": True})
             if k in (1, 2):  # residual oil / gas saturations > 0
                 out.append({"family": fam, "grid": g, "kr": k, "rho": r, "factor": f, "seed": seed, "helper_kr": True})
+    # mobility factors of 1e-9 and 1e9 (units, or a nearly immobile system): nothing may be treated as "negligible"
+    out += [dict(c, factor=f) for c in out if c["factor"] == 7.0 and c["grid"] in ("shipped", "uniform") and c["rho"] == 0
+            for f in (1e-9, 1e9)]
     if seed:
         f = round(0.5 + 20 * seed_offset(seed), 3)
         out += [dict(c, factor=f) for c in out if c["factor"] == 7.0 and c["kr"] == 1]
